@@ -31,6 +31,11 @@ pub fn random_moveno(rng: &mut Rng) -> u64 {
         1 => 2,
         2 => 1_000_000 + rng.below(1000) as u64,
         3 => 2 + rng.below(10_000) as u64,
+        // just below / at round numbers and powers of two (periodic audits, narrow counters)
+        4 => {
+            let base = [10u64, 100, 1000, 10_000, 100_000, 256, 512, 1024, 4096, 65_536, 1 << 20, 1 << 24, 1 << 31, 1 << 32][rng.below(14)];
+            (base * (1 + rng.below(9) as u64)).saturating_sub(rng.below(4) as u64).max(1)
+        }
         _ => 2 + rng.below(60) as u64,
     }
 }
@@ -350,4 +355,75 @@ pub fn w4c(rng: &mut Rng) -> Option<(MBoard, bool, u64)> {
         return None;
     }
     Some((b, mover, 2 + rng.below(90) as u64))
+}
+
+
+/// C11: a position that becomes MIRROR-SYMMETRIC by one step of the side to move (pieces without a twin -
+/// camel, elephant - are left out), together with that step. After it the game and its mirror image show the
+/// same board with different pending-pull squares.
+pub fn one_step_from_symmetric(rng: &mut Rng) -> Option<(MBoard, bool, u64, Code)> {
+    for _ in 0..40 {
+        let mut b = MBoard::empty();
+        for gold in [true, false] {
+            let mut left = [4usize, 1, 1, 1]; // pairs of r c d h
+            let n = 2 + rng.below(5);
+            let mut placed = 0;
+            let mut tries = 0;
+            while placed < n && tries < 200 {
+                tries += 1;
+                let s = rng.below(4);
+                if left[s] == 0 {
+                    continue;
+                }
+                let r = rng.below(8);
+                let f = rng.below(4);
+                let (i, j) = (r * 8 + f, r * 8 + 7 - f);
+                if b.0[i] != 0 || b.0[j] != 0 || TRAPS.contains(&i) {
+                    continue;
+                }
+                if s == 0 && ((gold && r == 0) || (!gold && r == 7)) {
+                    continue; // no rabbit on its goal rank
+                }
+                b.0[i] = cell(s as u8, gold);
+                b.0[j] = cell(s as u8, gold);
+                left[s] -= 1;
+                placed += 1;
+            }
+        }
+        if !b.has_rabbit(true) || !b.has_rabbit(false) || b.goal(true) || b.goal(false) {
+            continue;
+        }
+        let gold = rng.chance(1, 2);
+        // undo one step of a non-rabbit piece of the side to move: it came from an adjacent empty square
+        let mut cands: Vec<(usize, usize, u8)> = vec![];
+        for i in 0..64usize {
+            let c = b.0[i];
+            if c == 0 || is_gold(c) != gold || strength(c) == 0 {
+                continue;
+            }
+            for k in 0..4u8 {
+                if let Some(j) = nb(i, k) {
+                    if b.0[j] == 0 && !TRAPS.contains(&j) {
+                        cands.push((i, j, k));
+                    }
+                }
+            }
+        }
+        if cands.is_empty() {
+            continue;
+        }
+        let (i, j, k) = cands[rng.below(cands.len())];
+        let mut start = b;
+        start.0[j] = start.0[i];
+        start.0[i] = 0;
+        let code = step_code(j, opp(k));
+        if !start.legal(gold, 0, Pend::None).contains(code) {
+            continue;
+        }
+        match start.apply(gold, Pend::None, j, opp(k)) {
+            Some(a) if a.captured.is_empty() && a.board == b => return Some((start, gold, 2 + rng.below(40) as u64, code)),
+            _ => continue,
+        }
+    }
+    None
 }
